@@ -13,3 +13,13 @@ chk("C10", "fault_enumeration", "A",
     "DESIGN.md §2 C10",
     "Every listed public entry point is called on every input of the enumerated untrusted kinds and must return a value or an error: ~40k raw inputs x 3 entry points, 250 single + 31k double structural mutations x 8-9 entry points, ~7k endpoint-answer combinations at the four fetch points, ~1.8k DER variants of the SGX extension. A crash is attributed to its innermost library frame, so distinct crash sites are distinct findings.",
     "Unrecoverable runtime faults would abort the whole check rather than be attributed to a case. Coverage-guided fuzzing is sampling and is not performed.")
+chk("C08", "exploration", "A",
+    "bounded exhaustive exploration of validate.TdxQuote / RawTdxQuote over per-dimension products of quote variants and option values, judged two-directionally by an independent reference of the policy semantics",
+    "DESIGN.md §2 C08",
+    "~8k (quote, options) pairs: each of the 11 exact-match options at nil/empty/equal/every single-bit difference (on the option and on the quote side)/short/long, all RTMR list compositions up to length 5, all allowed-MR_TD compositions up to length 3 (alone and with MR_TD), SVN minima around values spanning both bytes, minimum TEE TCB SVN lengths and every component +-1, every single XFAM / TD_ATTRIBUTES bit, every cross-wiring of same-sized fields, all pairs of field deviations. The reference says must-accept / must-reject / either (wrongly sized options) and the library must agree and never panic.",
+    "Reference policy semantics and fixed-bit masks in harness/ref/policy.go are an independent transcription of the statement.")
+chk("C14", "exploration", "A",
+    "bounded exhaustive exploration of validate.PolicyToOptions over all single and paired per-field states of the policy message, then differential evaluation of the converted options against the literal reading of the message on a quote set",
+    "DESIGN.md §2 C14",
+    "~3.7k policy messages (each byte field absent/empty/right/short/long/one byte/different and all pairs, SVN minima at 0..2^32-1, RTMR lists up to 5, allowed-MR_TD lists up to 3, absent sub-policies, nil policy): conversion must fail whenever the statement says so, and every policy that converts is evaluated on 19 quotes (satisfying, missing exactly one field, just below each minimum) against the reference reading of the message; no panic anywhere.",
+    "Reference policy semantics shared with C08.")
